@@ -129,7 +129,7 @@ def run_tlc(module, cfg, pid, workers=8, dump=None, simulate=None, depth=None, t
             env_extra=None, java_opts=None, coverage=False, extra=None, tag=None, seed_arg=None, xmx=None):
     """Run TLC on spec/<module>.tla with spec/<cfg>. Returns dict with counts and stdout.
     Raises ToolError on timeout / TLC errors other than property violations."""
-    tag = tag or cfg.replace('.cfg', '')
+    tag = tag or os.path.basename(cfg).replace('.cfg', '')
     md = os.path.join(outdir(pid), 'tlc_' + tag)
     shutil.rmtree(md, ignore_errors=True)
     os.makedirs(md, exist_ok=True)
@@ -138,7 +138,7 @@ def run_tlc(module, cfg, pid, workers=8, dump=None, simulate=None, depth=None, t
         cmd += java_opts
     cmd += ['-cp', JAR + ':/opt/veriftools/tla/CommunityModules-deps.jar', 'tlc2.TLC']
     cmd += ['-workers', str(workers), '-metadir', md, '-cleanup', '-noGenerateSpecTE',
-            '-config', os.path.join(SPEC, cfg)]
+            '-config', cfg if os.path.isabs(cfg) else os.path.join(SPEC, cfg)]
     if dump:
         cmd += ['-dump', dump]
     if coverage:
